@@ -32,12 +32,36 @@ type FuncContract struct {
 	Clauses  []Clause
 	Pure     bool   // does not modify caller-visible Go heap
 	Havoc    bool   // lib: results unconstrained beyond ensures (default)
-	Replay   string // adapter name
+	Replay   string // adapter name (first / default)
 	ReplayKV [][2]string
+	Replays  []ReplaySpec // all replay clauses; `replay ADAPTER@Cxx: ...` applies to obligations of that property
 	Sweep    bool // include in the zero-annotation safety sweep even without clauses
 	Opts     map[string]string
 	File     string
 	Line     int
+}
+
+type ReplaySpec struct {
+	Adapter string
+	Prop    string
+	KV      [][2]string
+}
+
+// replayFor picks the replay clause for an obligation with the given properties.
+func (fc *FuncContract) replayFor(props []string) *ReplaySpec {
+	for i := range fc.Replays {
+		for _, p := range props {
+			if fc.Replays[i].Prop == p {
+				return &fc.Replays[i]
+			}
+		}
+	}
+	for i := range fc.Replays {
+		if fc.Replays[i].Prop == "" {
+			return &fc.Replays[i]
+		}
+	}
+	return nil
 }
 
 type LemmaPat struct {
@@ -81,7 +105,7 @@ type Contracts struct {
 
 var clauseKinds = map[string]bool{"requires": true, "ensures": true, "invariant": true, "returns": true,
 	"fswrite": true, "assume": true, "assert": true, "params": true, "pure": true, "replay": true, "sweep": true,
-	"decreases": true, "opt": true, "frame": true, "impure": true, "guide": true, "at-call": true, "ghost": true, "sets": true, "slice-invariant": true, "watch": true, "ensures-bounded": true, "modifies": true, "each": true, "ensures-local": true, "assume-at-call": true, "closure-invariant": true, "defines": true, "havocs": true, "fsread": true}
+	"decreases": true, "opt": true, "frame": true, "impure": true, "guide": true, "at-call": true, "ghost": true, "sets": true, "slice-invariant": true, "watch": true, "ensures-bounded": true, "modifies": true, "each": true, "ensures-local": true, "assume-at-call": true, "closure-invariant": true, "defines": true, "tolerates": true, "havocs": true, "fsread": true}
 
 var theoremRe = regexp.MustCompile(`^(\S+)\s*\(([^)]*)\)\s*:\s*(.*)$`)
 var lemmaPatRe = regexp.MustCompile(`^([A-Za-z_][A-Za-z0-9_.]*)\(([^)]*)\)\s*`)
@@ -284,12 +308,20 @@ func (cs *Contracts) parseContractFile(file string, repo bool, pkgPath string) e
 				last = nil
 			case "replay":
 				name, kvs := splitLabel(rest)
-				cur.Replay = name
+				spec := ReplaySpec{Adapter: name}
+				if i := strings.Index(name, "@"); i > 0 {
+					spec.Adapter, spec.Prop = name[:i], name[i+1:]
+				}
 				for _, kv := range splitTop(kvs, ',') {
 					p := strings.SplitN(kv, "=", 2)
 					if len(p) == 2 {
-						cur.ReplayKV = append(cur.ReplayKV, [2]string{strings.TrimSpace(p[0]), strings.TrimSpace(p[1])})
+						spec.KV = append(spec.KV, [2]string{strings.TrimSpace(p[0]), strings.TrimSpace(p[1])})
 					}
+				}
+				cur.Replays = append(cur.Replays, spec)
+				if cur.Replay == "" {
+					cur.Replay = spec.Adapter
+					cur.ReplayKV = spec.KV
 				}
 				last = nil
 			default:
@@ -349,7 +381,7 @@ func (cs *Contracts) parseContractFile(file string, repo bool, pkgPath string) e
 					c.Callee = rest[:i]
 					rest = strings.TrimSpace(rest[i+1:])
 				}
-				if word == "at-call" || word == "assume-at-call" {
+				if word == "at-call" || word == "assume-at-call" || word == "tolerates" {
 					// at-call CALLEE label: expr   (a0, a1, ... name the call arguments)
 					i := strings.IndexAny(rest, " \t")
 					if i < 0 {
